@@ -842,6 +842,20 @@ struct Runner
               };
             }
           }
+          else if (act == 4) {
+            // another sandbox of the same backend type is created and destroyed while the guest of this one is inside a
+            // callback: whatever the calls that follow reach must still be this sandbox's
+            g_body_action = [this] {
+              c.probe("another_sandbox_created_and_destroyed_inside_a_callback");
+              auto tmp = std::make_unique<Sandbox>();
+              Outcome ro = attempt([&] {
+                if (BT<Sbx>::create(*tmp, 0))
+                  tmp->destroy_sandbox();
+              });
+              if (ro != OK)
+                c.violate("C14", "create_and_destroy_inside_a_callback_aborts@call", "%s", g_last_abort_msg.c_str());
+            };
+          }
           else if (act == 3 && slots[si].a) {
             // the owner of the callback that is running is moved away and back while the guest is inside it
             g_body_action = [this, si] {
